@@ -225,3 +225,63 @@ def c04_dispatch(report, cfg):
                 report.violated("R4.5", ikey, "BLAKE-%d compression through the dispatcher differs from the specification%s"
                                 % (variant, " and depends on CPU detection results %s (backends disagree)" % cpu if cpu else ""))
         engine_guard(go, report, "R4.5", ikey)
+
+
+def c04_update(report, cfg):
+    """R17.1 / R8.3 for BLAKE: update processes the complete blocks of (buffer ++ data), advancing the
+    double-word bit counter by 8*blocksize with carry before each block."""
+    f = facts.load(cfg)
+    total = 0
+    for name, variant in VARIANTS.items():
+        w, rounds, bb, rot, marker, outb = B.PARAMS[variant]
+        ctype = "blake_hash::Compressor%d" % (256 if w == 32 else 512)
+        ufn_name = "BLAKE%d_COMPRESS" % (256 if w == 32 else 512)
+        t = "blake_hash::%s" % name
+        upd = find(f, r"^<blake_hash::%s as digest::Update>::update::<&\[u8\]>$" % name)
+        hooks = {r"^blake_hash::Compressor%d::put_block$" % (256 if w == 32 else 512): compress_hook(ufn_name, ctype, variant)}
+        for p in (0, 1, bb - 1):
+            for ln in (0, 1, bb - p - 1 if bb - p - 1 > 1 else 2, bb - p, bb, 2 * bb + 3):
+                ikey = "%s::update pos=%d len=%d@%s" % (name, p, ln, cfg)
+                total += 1
+
+                def go():
+                    bv.reset()
+                    it = Interp(f, MODELS, hooks=hooks)
+                    v = it.from_bits(bv.inp("self", it.ty.size_bits(t)), t)
+                    hbits = bv.inp("h", 8 * w)
+                    v = with_field(it, v, t, "compressor", it.from_bits(hbits, ctype))
+                    t0, t1 = bv.inp("t0", w), bv.inp("t1", w)
+                    v = with_field(it, v, t, "t", Agg([t0, t1]))
+                    buf, bt, _ = by_name(it, v, t, "buffer")
+                    old = bv.inp("buf", 8 * bb)
+                    buf = with_field(it, buf, bt, "buffer", Agg(old[8 * i:8 * i + 8] for i in range(bb)))
+                    buf = with_field(it, buf, bt, "pos", bv.const(p, 64))
+                    v = with_field(it, v, t, "buffer", buf)
+                    scell = it.new_cell(v, "hasher")
+                    dbits, dcell = bytes_cell(it, "data", ln)
+                    it.call_instance(upd, [Ptr(scell, ()), Ptr(dcell, (), idx=0, meta=ln, ety="u8")])
+                    if filter_asserts(it, report, "R17.1", ikey):
+                        return
+                    stream = old[:8 * p] + dbits
+                    nfull = (p + ln) // bb
+                    cf = ufn_compress(ufn_name, w)
+                    h = words(hbits, w)
+                    e0, e1 = t0, t1
+                    for i in range(nfull):
+                        e0, e1 = B.add_count(w, e0, e1, 8 * bb)
+                        h = cf(h, stream[8 * bb * i:8 * bb * (i + 1)], e0, e1)
+                    v2 = scell.v
+                    comp2, _, _ = by_name(it, v2, t, "compressor")
+                    tt, _, _ = by_name(it, v2, t, "t")
+                    buf2, _, _ = by_name(it, v2, t, "buffer")
+                    pos2, _, _ = by_name(it, buf2, bt, "pos")
+                    if tt.f[0] != e0 or tt.f[1] != e1:
+                        report.violated("R17.1", ikey, "%s::update: the bit counter after %d block(s) is not the double-word sum t + 8*%d*blocks with carry into the high word" % (name, nfull, bb))
+                    elif it.to_bits(comp2, ctype) != bv.concat(h):
+                        report.violated("R17.1", ikey, "%s::update: blocks or per-block counters fed to the compression function differ from the stream's complete blocks" % name)
+                    elif bv.const_value(pos2) != (p + ln) - nfull * bb:
+                        report.violated("R17.1", ikey, "%s::update: wrong number of buffered bytes" % name)
+                    else:
+                        report.ok("R17.1", ikey, sample={"hasher": name, "pos": p, "len": ln} if (p, ln) == (1, 2 * bb + 3) else None)
+                engine_guard(go, report, "R17.1", ikey)
+    return total
